@@ -77,6 +77,13 @@ namespace detail {
             f.pend = ::vrt::P_NONE;
             ::vrt::point();
             unlock_nopoint();
+            post_unlock_point();
+        }
+        // optional second scheduling point right after the release (SchedSpec::post_unlock): the code that follows an unlock is
+        // not instrumented, so without it nothing can run between the release and that code; with it, library code that still
+        // touches the protected state after unlocking meets the other fibers' critical sections
+        static void post_unlock_point() {
+            if (::vrt::rt().spec && ::vrt::rt().spec->post_unlock) { ::vrt::me().pend = ::vrt::P_NONE; ::vrt::point(); }
         }
         void unlock_nopoint() {
             ::vrt::Fiber& f = ::vrt::me();
@@ -139,6 +146,7 @@ namespace detail {
             core.shared_by[f.id]--; core.nshared--; f.held--;
             core.Lr.join(f.clock);
             f.clock.c[f.id]++;
+            post_unlock_point();
         }
         bool timed_lock_shared(long long ns) {
             bool positive = ns > 0;
